@@ -355,10 +355,8 @@ class _GMatch:
         raise Exception("ghost match asked for %s" % name)
 
 
-def _pattern_match(it, func, a, k):
-    pat = func.__self__
-    s = a[0]
-    if isinstance(s, _GStamp) and pat.pattern == r"([+-])(\d\d):(\d\d)":
+def _offset_match(it, pat, s):
+    if isinstance(s, _GStamp):
         it.path.assumed.add(r"re.match(([+-])(\d\d):(\d\d)) on '+hh:mm' / '-hh:mm' yields sign, hh, mm; None on other 6-character texts")
         suf = s.suffix
         if s.hi is None and isinstance(suf, tuple):
@@ -367,12 +365,13 @@ def _pattern_match(it, func, a, k):
 
             return _GMatch(("+" if it.path.branch(sign) else "-", SStr([FmtInt(hh)]), SStr([FmtInt(mm)])))
         return None
-    if isinstance(s, str):
-        return it.native(func, a, k)
     raise Unsupported("regex match on %r" % (s,))
 
 
-MODELS_BY_NAME["Pattern.match"] = _pattern_match
+from pyvc.engine import PATTERN_MODELS
+
+PATTERN_MODELS[r"([+-])(\d\d):(\d\d)"] = _offset_match
+
 
 
 @model(dt.timedelta)
